@@ -94,7 +94,7 @@ def r1(rep, mod, call, worker):
     # the function called is the one received
     calls = [n for n in walk_own(worker.node) if isinstance(n, ast.Call) and isinstance(n.func, ast.Name) and names and n.func.id == names[1]]
     okf = len(calls) == 1 and any(isinstance(a, ast.Starred) and isinstance(a.value, ast.Name) and a.value.id == names[2] for a in calls[0].args) \
-        and any(k.arg is None and isinstance(k.value, ast.Name) and k.value.id == names[3] for k in calls[0].keywords)
+        and [k.value.id for k in calls[0].keywords if k.arg is None and isinstance(k.value, ast.Name)][-1:] == [names[3]]
     rep.ob("R1", "the worker calls the received function with the received args and kwargs", okf, worker.site(), "", key="index/call")
     # parent: i, this_result = self.result_queue.get(...); result[i] = this_result
     pg = [n for n in walk_own(call.node) if isinstance(n, ast.Assign) and isinstance(n.value, ast.Call) and isinstance(n.value.func, ast.Attribute)
@@ -125,12 +125,39 @@ def _enclosing(root, node, kind):
     return best
 
 
-def _call_shape(mod, c):
+def _expanded_keywords(mod, fnode, c):
+    """(explicit keywords {name: value text}, remaining **-spread names) of a call, with a spread
+    `**d` of a local that is bound once to a dict display with literal keys written out as the
+    keywords it stands for (`common = {"psi": psi, ...}; f(*a, **common, **kw)`)"""
+    from ..model import single_def, inline_temporaries
+    kw, spread = {}, []
+    for k in c.keywords:
+        if k.arg is not None:
+            kw[k.arg] = T(mod, inline_temporaries(fnode, k.value))
+            continue
+        d = single_def(fnode, k.value.id) if isinstance(k.value, ast.Name) else None
+        mutated = isinstance(k.value, ast.Name) and any(
+            (isinstance(n, ast.Call) and isinstance(n.func, ast.Attribute) and isinstance(n.func.value, ast.Name) and n.func.value.id == k.value.id and n.func.attr in ("update", "pop", "setdefault", "clear", "popitem"))
+            or (isinstance(n, (ast.Assign, ast.AugAssign, ast.Delete)) and any(isinstance(x, ast.Subscript) and isinstance(x.value, ast.Name) and x.value.id == k.value.id and isinstance(x.ctx, (ast.Store, ast.Del)) for x in ast.walk(n)))
+            for n in ast.walk(fnode))
+        if isinstance(d, ast.Dict) and not mutated and all(isinstance(kk, ast.Constant) and isinstance(kk.value, str) for kk in d.keys):
+            for kk, vv in zip(d.keys, d.values):
+                kw[kk.value] = T(mod, inline_temporaries(fnode, vv))
+        else:
+            spread.append(T(mod, k.value))
+    return kw, spread
+
+
+def _call_shape(mod, c, fnode=None):
+    if fnode is not None:
+        kw, spread = _expanded_keywords(mod, fnode, c)
+    else:
+        kw, spread = {k.arg: T(mod, k.value) for k in c.keywords if k.arg}, [T(mod, k.value) for k in c.keywords if k.arg is None]
     return {
         "starred": [T(mod, a.value) for a in c.args if isinstance(a, ast.Starred)],
         "positional": [T(mod, a) for a in c.args if not isinstance(a, ast.Starred)],
-        "keywords": sorted(k.arg for k in c.keywords if k.arg),
-        "kwstar": [T(mod, k.value) for k in c.keywords if k.arg is None],
+        "keywords": sorted(kw),
+        "kwstar": spread,
     }
 
 
@@ -140,20 +167,20 @@ def r2(rep, mod, call, worker, init):
     if len(sc) != 1 or len(wc) != 1:
         rep.ob("R2", "one task call in the serial arm and one in the worker", False, call.site(), "%d / %d" % (len(sc), len(wc)), key="shape/count")
         return
-    a, b = _call_shape(mod, sc[0]), _call_shape(mod, wc[0])
+    a, b = _call_shape(mod, sc[0], call.node), _call_shape(mod, wc[0], worker.node)
     rep.ob("R2", "serial arm and worker pass the same keyword set and spread args/kwargs the same way", a["keywords"] == b["keywords"] and a["starred"] == b["starred"]
            and a["kwstar"] == b["kwstar"] and a["positional"] == b["positional"], call.site(sc[0]), "serial %s ; worker %s" % (a, b), key="shape/agree")
     rep.ob("R2", "keyword set is {equilibrium, psi, f_R, f_Z}", a["keywords"] == ["equilibrium", "f_R", "f_Z", "psi"], call.site(sc[0]), str(a["keywords"]), key="shape/keywords")
     # the values: psi/f_R/f_Z are the equilibrium's own functions in both
     kv_s = {k.arg: T(mod, k.value) for k in sc[0].keywords if k.arg}
-    kv_w = {k.arg: T(mod, k.value) for k in wc[0].keywords if k.arg}
+    kv_w, _ = _expanded_keywords(mod, worker.node, wc[0])
     idefs = {s.targets[0].attr: T(mod, s.value) for s in walk_own(init.node) if isinstance(s, ast.Assign) and is_self_attr(s.targets[0])}
     wdefs = {s.targets[0].id: T(mod, s.value) for s in walk_own(worker.node) if isinstance(s, ast.Assign) and isinstance(s.targets[0], ast.Name)}
     ok = True
     for k in ("psi", "f_R", "f_Z"):
         sv = kv_s.get(k, "")
         ok = ok and sv == "self." + k and idefs.get(k) == "equilibrium." + k
-        ok = ok and wdefs.get(kv_w.get(k, "")) == "equilibrium." + k
+        ok = ok and (wdefs.get(kv_w.get(k, "")) == "equilibrium." + k or kv_w.get(k) == "equilibrium." + k)
     ok = ok and kv_s.get("equilibrium") == "self.equilibrium" and idefs.get("equilibrium") == "equilibrium" and kv_w.get("equilibrium") == "equilibrium"
     rep.ob("R2", "psi, f_R, f_Z are the passed equilibrium's own functions in both arms", ok, call.site(), "serial %s worker %s" % (kv_s, kv_w), key="shape/values")
     # serial arm maps over args_list in order with a list comprehension
